@@ -46,7 +46,7 @@ def makeDesc (descriptor : String) : Desc :=
 /-- the decimal number a rendering starts with when it is a non-negative integer rendering (`fmt.Sprint` of an `int`
 or of an integer-valued `float64`), 0 otherwise (`GetIntAttribute` not ok: string, bool, map …) -/
 def natOfRendering (s : String) : Nat :=
-  if s.isEmpty ∨ ¬ s.toList.all Char.isDigit then 0 else s.toNat!
+  if s.isEmpty ∨ ¬ s.toList.all Char.isDigit then 0 else s.toList.foldl (fun n c => 10 * n + (c.toNat - 48)) 0
 
 /-- `desc.Weight(sequence)` -/
 def Desc.weight (d : Desc) (r : Rec) : Nat :=
